@@ -14,9 +14,24 @@ import (
 
 // C10 — iterators, ListKeys and Fold enumerate a sorted, complete, stable snapshot.
 
-var c10Universe = []string{"a", "ab", "abc", "b", "ba", "c"}
-var c10Targets = []string{"0", "a", "aa", "ab", "abc", "b", "ba", "bb", "c", "d"}
-var c10Prefixes = []string{"", "a", "ab", "b", "x"}
+var c10Universe, c10Targets, c10Prefixes []string
+var c10NewKey string
+
+// two key universes: nested ASCII keys, and keys around the byte values 0x00 / 0xFF (a prefix whose last byte is
+// 0xFF has no "prefix + 1" upper bound; a key that extends another by 0x00 is its immediate successor)
+var c10Universes = []struct {
+	Keys, Targets, Prefixes []string
+	NewKey                  string
+}{
+	{[]string{"a", "ab", "abc", "b", "ba", "c"}, []string{"0", "a", "aa", "ab", "abc", "b", "ba", "bb", "c", "d"}, []string{"", "a", "ab", "b", "x"}, "aba"},
+	{[]string{"k", "k\x00", "k\xff", "k\xff\xff", "l", "\xff"}, []string{"\x00", "k", "k\x00", "k\x01", "k\xfe", "k\xff", "k\xff\xff", "k\xff\xff\x00", "l", "\xff", "\xff\xff"}, []string{"k", "k\xff", "k\xff\xff", "\xff", "k\x00"}, "k\xff\x00"},
+}
+
+func c10SetUniverse(u int) {
+	c10Universe, c10Targets, c10Prefixes, c10NewKey = c10Universes[u].Keys, c10Universes[u].Targets, c10Universes[u].Prefixes, c10Universes[u].NewKey
+}
+
+func init() { c10SetUniverse(0) }
 
 // iterator call alphabet
 type itCall struct {
@@ -257,6 +272,7 @@ type c10Replay struct {
 	Shards int      `json:"shards"`
 	Prefix string   `json:"prefix"`
 	Calls  []itCall `json:"calls"`
+	U      int      `json:"universe,omitempty"` // index into c10Universes
 }
 
 func (r c10Replay) String() string {
@@ -283,7 +299,7 @@ func c10Index(r c10Replay, res *TaskResult) (string, bool) {
 	write := func(kind string) {
 		switch kind {
 		case "put-new":
-			ix.Put([]byte("aba"), &datafile.DataPos{Fid: 2, Offset: 99, Size: 10})
+			ix.Put([]byte(c10NewKey), &datafile.DataPos{Fid: 2, Offset: 99, Size: 10})
 		case "overwrite":
 			if len(keys) > 0 {
 				ix.Put([]byte(keys[len(keys)/2]), &datafile.DataPos{Fid: 2, Offset: 98, Size: 10})
@@ -360,8 +376,9 @@ func c10DB(w *World, vals map[string]string, r c10Replay, res *TaskResult) (stri
 		write := func(kind string) {
 			switch kind {
 			case "put-new":
-				w.DB.Put([]byte("aba"), []byte("new"))
-				undo = func() { w.DB.Delete([]byte("aba")) }
+				nk := c10NewKey
+				w.DB.Put([]byte(nk), []byte("new"))
+				undo = func() { w.DB.Delete([]byte(nk)) }
 			case "overwrite":
 				if len(keys) > 0 {
 					k := keys[len(keys)/2]
@@ -405,76 +422,28 @@ func c10Tasks(tier string) []Task {
 		}
 		return c
 	}
-	for mask := 0; mask < 64; mask++ {
-		if popcnt(mask) > maxKeys {
-			continue
+	for u := range c10Universes {
+		u := u
+		c10SetUniverse(u)
+		umax := maxKeys
+		if u > 0 && tier != "thorough" {
+			umax = 2
 		}
-		mask := mask
-		tasks = append(tasks, Task{Level: fmt.Sprintf("index-l%d-b%d", l, b), Name: fmt.Sprintf("index subset %q", subsetKeys(mask)), Fn: func(res *TaskResult) {
-			for _, typ := range []int8{1, 2, 3} {
-				for _, sh := range shardsIdx {
-					for _, rev := range []bool{false, true} {
-						stop := false
-						enumCalls(l, b, func(calls []itCall) bool {
-							r := c10Replay{Level: "index", Mask: mask, Rev: rev, Index: typ, Shards: sh, Calls: calls}
-							progressTick.Add(1)
-							d, pruned := c10IndexSafe(r, res)
-							if pruned {
-								res.count("pruned_backward_seek", 1)
-								return true
-							}
-							if len(calls) > 2 && len(subsetKeys(mask)) >= 2 {
-								res.Nontrivial++
-							}
-							if d != "" {
-								r.Calls = append([]itCall{}, calls...)
-								res.Violations = append(res.Violations, Violation{Prop: "C10", Clause: "iterator-index", Sig: fmt.Sprintf("iterator-index:type%d", typ), Detail: r.String() + "\n" + d, Replay: mustJSON(r)})
-								stop = true
-								return false
-							}
-							return true
-						})
-						if stop {
-							break
-						}
-					}
-				}
+		for mask := 0; mask < 64; mask++ {
+			if popcnt(mask) > umax {
+				continue
 			}
-			c10FlushStates(res)
-			if len(res.Samples) == 0 {
-				res.Samples = append(res.Samples, fmt.Sprintf("index level: keys %q x 3 index types x shards %v x 2 directions x all call sequences (first call rewind|seek(t), then %d calls, <=%d deviants)", subsetKeys(mask), shardsIdx, l, b))
-			}
-		}})
-	}
-	for mask := 0; mask < 64; mask++ {
-		if popcnt(mask) > maxKeys {
-			continue
-		}
-		for _, typ := range []int8{1, 2, 3} {
-			mask, typ := mask, typ
-			tasks = append(tasks, Task{Level: fmt.Sprintf("db-l%d-b%d", dbL, dbB), Name: fmt.Sprintf("db subset %q type %d", subsetKeys(mask), typ), Fn: func(res *TaskResult) {
-				for _, sh := range []int{1, 16} {
-					w, vals, werr := c10World(c10Replay{Mask: mask, Index: typ, Shards: sh})
-					if werr != "" {
-						res.Err = werr
-						return
-					}
-					n := 0
-					for _, rev := range []bool{false, true} {
-						for _, pfx := range c10Prefixes {
+			mask := mask
+			tasks = append(tasks, Task{Level: fmt.Sprintf("index-l%d-b%d", l, b), Name: fmt.Sprintf("index universe %d subset %q", u, subsetKeys(mask)), Fn: func(res *TaskResult) {
+				c10SetUniverse(u)
+				for _, typ := range []int8{1, 2, 3} {
+					for _, sh := range shardsIdx {
+						for _, rev := range []bool{false, true} {
 							stop := false
-							enumCalls(dbL, dbB, func(calls []itCall) bool {
-								r := c10Replay{Level: "db", Mask: mask, Rev: rev, Index: typ, Shards: sh, Prefix: pfx, Calls: calls}
-								announce(func() string { return r.String() })
-								n++
-								if n%2000 == 0 { // the log only grows: rebuild now and then
-									w.Destroy()
-									if w, vals, werr = c10World(r); werr != "" {
-										res.Err = werr
-										return false
-									}
-								}
-								d, pruned := c10DB(w, vals, r, res)
+							enumCalls(l, b, func(calls []itCall) bool {
+								r := c10Replay{Level: "index", Mask: mask, Rev: rev, Index: typ, Shards: sh, Calls: calls, U: u}
+								progressTick.Add(1)
+								d, pruned := c10IndexSafe(r, res)
 								if pruned {
 									res.count("pruned_backward_seek", 1)
 									return true
@@ -484,28 +453,87 @@ func c10Tasks(tier string) []Task {
 								}
 								if d != "" {
 									r.Calls = append([]itCall{}, calls...)
-									res.Violations = append(res.Violations, Violation{Prop: "C10", Clause: "iterator-db", Sig: fmt.Sprintf("iterator-db:type%d", typ), Detail: r.String() + "\n" + d, Replay: mustJSON(r)})
+									res.Violations = append(res.Violations, Violation{Prop: "C10", Clause: "iterator-index", Sig: fmt.Sprintf("iterator-index:type%d", typ), Detail: r.String() + "\n" + d, Replay: mustJSON(r)})
 									stop = true
 									return false
 								}
-								return !w.Dead
+								return true
 							})
-							if stop || w.Dead || res.Err != "" {
-								w.Destroy()
-								c10FlushStates(res)
-								return
+							if stop {
+								break
 							}
 						}
 					}
-					w.Destroy()
 				}
 				c10FlushStates(res)
 				if len(res.Samples) == 0 {
-					res.Samples = append(res.Samples, fmt.Sprintf("db level: keys %q, index type %d x shards {1,16} x 2 directions x prefixes %q x all call sequences (%d calls, <=%d deviants) + ListKeys + Fold", subsetKeys(mask), typ, c10Prefixes, dbL, dbB))
+					res.Samples = append(res.Samples, fmt.Sprintf("index level: keys %q x 3 index types x shards %v x 2 directions x all call sequences (first call rewind|seek(t), then %d calls, <=%d deviants)", subsetKeys(mask), shardsIdx, l, b))
 				}
 			}})
 		}
+		for mask := 0; mask < 64; mask++ {
+			if popcnt(mask) > umax {
+				continue
+			}
+			for _, typ := range []int8{1, 2, 3} {
+				mask, typ := mask, typ
+				tasks = append(tasks, Task{Level: fmt.Sprintf("db-l%d-b%d", dbL, dbB), Name: fmt.Sprintf("db universe %d subset %q type %d", u, subsetKeys(mask), typ), Fn: func(res *TaskResult) {
+					c10SetUniverse(u)
+					for _, sh := range []int{1, 16} {
+						w, vals, werr := c10World(c10Replay{Mask: mask, Index: typ, Shards: sh, U: u})
+						if werr != "" {
+							res.Err = werr
+							return
+						}
+						n := 0
+						for _, rev := range []bool{false, true} {
+							for _, pfx := range c10Prefixes {
+								stop := false
+								enumCalls(dbL, dbB, func(calls []itCall) bool {
+									r := c10Replay{Level: "db", Mask: mask, Rev: rev, Index: typ, Shards: sh, Prefix: pfx, Calls: calls, U: u}
+									announce(func() string { return r.String() })
+									n++
+									if n%2000 == 0 { // the log only grows: rebuild now and then
+										w.Destroy()
+										if w, vals, werr = c10World(r); werr != "" {
+											res.Err = werr
+											return false
+										}
+									}
+									d, pruned := c10DB(w, vals, r, res)
+									if pruned {
+										res.count("pruned_backward_seek", 1)
+										return true
+									}
+									if len(calls) > 2 && len(subsetKeys(mask)) >= 2 {
+										res.Nontrivial++
+									}
+									if d != "" {
+										r.Calls = append([]itCall{}, calls...)
+										res.Violations = append(res.Violations, Violation{Prop: "C10", Clause: "iterator-db", Sig: fmt.Sprintf("iterator-db:type%d", typ), Detail: r.String() + "\n" + d, Replay: mustJSON(r)})
+										stop = true
+										return false
+									}
+									return !w.Dead
+								})
+								if stop || w.Dead || res.Err != "" {
+									w.Destroy()
+									c10FlushStates(res)
+									return
+								}
+							}
+						}
+						w.Destroy()
+					}
+					c10FlushStates(res)
+					if len(res.Samples) == 0 {
+						res.Samples = append(res.Samples, fmt.Sprintf("db level: keys %q, index type %d x shards {1,16} x 2 directions x prefixes %q x all call sequences (%d calls, <=%d deviants) + ListKeys + Fold", subsetKeys(mask), typ, c10Prefixes, dbL, dbB))
+					}
+				}})
+			}
+		}
 	}
+	c10SetUniverse(0)
 	return append(tasks, c10ConcurrentTasks(tier)...)
 }
 
@@ -626,6 +654,7 @@ func init() {
 		Replay: func(raw json.RawMessage) {
 			var r c10Replay
 			json.Unmarshal(raw, &r)
+			c10SetUniverse(r.U)
 			var res TaskResult
 			var d string
 			if r.Level == "index" {
